@@ -556,6 +556,59 @@ func templateImports() map[string]map[string]analyzer.BuiltinImport {
 		Span:                sp,
 	}
 	return map[string]map[string]analyzer.BuiltinImport{
-		TemplModule: {"Multi": analyzer.BuiltinImport{Template: spec}},
+		TemplModule: {"Multi": analyzer.BuiltinImport{Template: spec}, "Sensor": analyzer.BuiltinImport{Template: sensorSpec()}},
 	}
+}
+
+// sensorSpec builds the template `Sensor` (module c14templ) from the table the generator of the
+// implerr family uses (gen_implerr.go: sensorTempl): capabilities that require two or three methods
+// each, methods that require the `pub` / `event` modifier, a default capability.
+func sensorSpec() *ast.TemplateSpec {
+	sp := herrors.Span{}
+	typeOf := func(name string) ast.Type {
+		switch name {
+		case "int":
+			return ast.NewIntType(sp)
+		case "float":
+			return ast.NewFloatType(sp)
+		case "bool":
+			return ast.NewBoolType(sp)
+		case "str":
+			return ast.NewStringType(sp)
+		case "[float]":
+			return ast.NewListType(ast.NewFloatType(sp), sp)
+		case "":
+			return ast.NewNullType(sp)
+		}
+		panic("c14: unknown type name in template table: " + name)
+	}
+	t := sensorTempl
+	spec := &ast.TemplateSpec{
+		BaseMethods:         map[string]ast.TemplateMethod{},
+		Capabilities:        map[string]ast.TemplateCapability{},
+		DefaultCapabilities: append([]string{}, t.Defaults...),
+		Span:                sp,
+	}
+	for _, name := range sortedMethodNames(t) {
+		m := t.Methods[name]
+		params := make([]ast.FunctionTypeParam, 0, len(m.Params))
+		for _, p := range m.Params {
+			params = append(params, templParam(p.Name, typeOf(p.Type)))
+		}
+		tm := templMethod(params, typeOf(m.Ret))
+		switch m.Mod {
+		case "pub":
+			tm.Modifier = pAst.FN_MODIFIER_PUB
+		case "event":
+			tm.Modifier = pAst.FN_MODIFIER_EVENT
+		}
+		spec.BaseMethods[name] = tm
+	}
+	for _, c := range t.Caps {
+		spec.Capabilities[c] = ast.TemplateCapability{
+			RequiresMethods:           append([]string{}, t.CapMethods[c]...),
+			ConflictsWithCapabilities: conflicts(t.Conflicts[c]...),
+		}
+	}
+	return spec
 }
